@@ -118,6 +118,12 @@ def grid(tier):
                 cfgs.append(dict(part='main', kind='A', fsci=fsci, fwi=fwi,
                                  cl=1, rl=n + 1, dev='std', k=2,
                                  ats_form=form))
+    # the largest legal response (extended Le 0000h: 65536 octets + SW1 SW2)
+    # and one octet less, fault free and with one fault anywhere
+    for kind in 'AB':
+        for rl in (65537, 65538):
+            cfgs.append(dict(part='main', kind=kind, fsci=8, fwi=4, cl=1,
+                             rl=rl, dev='std', k=0 if tier == 'quick' else 1))
     # empty command (transceive only), device frame limit below FSC, bad card
     for kind in 'AB':
         for fsci in (0, 2, 8):
